@@ -158,9 +158,9 @@ def strip_cv(t):
             if t.startswith(q):
                 t = t[len(q):]
                 changed = True
-        for q in (" const", " volatile"):
+        for q in (" const", " volatile", "*const"):
             if t.endswith(q):
-                t = t[:-len(q)]
+                t = t[:-len(q)] + ("*" if q == "*const" else "")
                 changed = True
     return t.strip()
 
